@@ -1,10 +1,11 @@
 #!/bin/bash
 # usage: try_seeded.sh <patch.diff> <property> [tier]  -- applies the change to /repo, runs the check, reverts
-patch=$1; prop=$2; tier=${3:-quick}
+V=$(cd "$(dirname "$0")/.." && pwd)
+patch=$(readlink -f "$1"); prop=$2; tier=${3:-quick}
 cd /repo || exit 2
 if [ -n "$(git status --porcelain)" ]; then echo "repo not clean"; exit 2; fi
 git apply "$patch" || { echo "patch does not apply"; exit 2; }
-cd "$(dirname "$0")/.."
+cd "$V"
 out=$(./check $prop $tier 2>&1); rc=$?
 git -C /repo checkout -- . ; git -C /repo clean -fdq
 echo "rc=$rc"
